@@ -253,7 +253,7 @@ func runInstance(lp *LoadedPkg, js *JobSpec, ps map[string]int64, pools map[stri
 	}
 	solvers := js.Solvers
 	if len(solvers) == 0 {
-		solvers = []string{"z3", "z3-new", "cvc5"}
+		solvers = []string{"z3-new", "cvc5", "z3"}
 	}
 	// print scripts sequentially (term store is not concurrent), solve in parallel
 	var ws []*work
@@ -422,10 +422,11 @@ func cmdRun(args []string) int {
 	entry := fs.String("entry", "", "entry function")
 	pstr := fs.String("params", "", "k=v,k=v")
 	stubs := fs.String("stubs", "", "callee=stub;callee=stub")
+	noops := fs.String("noops", "", "callee;callee")
 	uf := fs.Bool("uf", false, "floats as UF")
 	dump := fs.String("dump", "", "dump scripts to dir")
 	timeout := fs.Int("timeout", 60, "per-query timeout")
-	solvers := fs.String("solvers", "z3", "comma separated")
+	solvers := fs.String("solvers", "z3-new", "comma separated")
 	replay := fs.Bool("replay", false, "replay sat assert/panic queries natively")
 	fs.Parse(args)
 	js := &JobSpec{Name: "adhoc", Pkg: *pkg, Harness: *harness, Entry: *entry, FloatUF: *uf, Timeout: *timeout, Stubs: map[string]string{}}
@@ -437,6 +438,9 @@ func cmdRun(args []string) int {
 			v, _ := strconv.ParseInt(p[1], 10, 64)
 			ps[p[0]] = v
 		}
+	}
+	if *noops != "" {
+		js.Noops = strings.Split(*noops, ";")
 	}
 	if *stubs != "" {
 		for _, kv := range strings.Split(*stubs, ";") {
